@@ -331,6 +331,41 @@ func (n *Node) BeginBlock(b BlockIn) abci.ResponseBeginBlock {
 	}
 	var votes []abci.VoteInfo
 	ctx := n.App.BaseApp.NewContext(true, tmproto.Header{Height: n.Height})
+	// consensus needs a validator with power to produce the block at all: the scripted faults (absence, double
+	// signing) never reach the last validator that is still bonded and unharmed in this block
+	unharmed := 0
+	for _, v := range n.W.Vals {
+		if val, found := n.App.StakingKeeper.GetValidatorByConsAddr(ctx, v.ConsAddr()); found && val.IsBonded() && val.ConsensusPower(sdk.DefaultPowerReduction) >= 1 {
+			unharmed++
+		}
+	}
+	harmed := map[int]bool{}
+	mayHarm := func(i int) bool {
+		i = i % len(n.W.Vals)
+		if harmed[i] {
+			return true
+		}
+		val, found := n.App.StakingKeeper.GetValidatorByConsAddr(ctx, n.W.Vals[i].ConsAddr())
+		if !found || !val.IsBonded() || val.ConsensusPower(sdk.DefaultPowerReduction) < 1 {
+			return true
+		}
+		if unharmed <= 1 {
+			return false
+		}
+		unharmed--
+		harmed[i] = true
+		return true
+	}
+	for _, i := range b.Evidence {
+		if !mayHarm(i) {
+			harmed[-1-i%len(n.W.Vals)] = true
+		}
+	}
+	for i := range absent {
+		if !mayHarm(i) {
+			delete(absent, i)
+		}
+	}
 	if n.Height >= 1 {
 		for i, v := range n.W.Vals {
 			val, found := n.App.StakingKeeper.GetValidatorByConsAddr(ctx, v.ConsAddr())
@@ -346,7 +381,7 @@ func (n *Node) BeginBlock(b BlockIn) abci.ResponseBeginBlock {
 		v := n.W.Vals[i%len(n.W.Vals)]
 		val, found := n.App.StakingKeeper.GetValidatorByConsAddr(ctx, v.ConsAddr())
 		// (consensus only reports misbehaviour of validators that had voting power)
-		if !found || val.ConsensusPower(sdk.DefaultPowerReduction) < 1 {
+		if !found || val.ConsensusPower(sdk.DefaultPowerReduction) < 1 || harmed[-1-i%len(n.W.Vals)] {
 			continue
 		}
 		byz = append(byz, abci.Misbehavior{Type: abci.MisbehaviorType_DUPLICATE_VOTE,
